@@ -139,13 +139,37 @@ fn sig_node(n: &XmlNode) -> Result<J, String> {
     })
 }
 
+/// the same signature with all white space removed from character data (and emptied runs dropped): what an
+/// indenting printer must preserve
+fn strip_ws(sig: &J) -> J {
+    match sig {
+        J::Array(a) if a.first().and_then(|x| x.as_str()) == Some("chars") => {
+            let kept: Vec<J> = a[1].as_array().cloned().unwrap_or_default().into_iter()
+                .filter(|c| !matches!(c.as_u64(), Some(32) | Some(9) | Some(10) | Some(13))).collect();
+            json!(["chars", kept])
+        }
+        J::Array(a) => {
+            let mut out = vec![];
+            for x in a {
+                let y = strip_ws(x);
+                if y.as_array().map(|v| v.first().and_then(|t| t.as_str()) == Some("chars") && v[1].as_array().map(|c| c.is_empty()).unwrap_or(false)).unwrap_or(false) {
+                    continue;
+                }
+                out.push(y);
+            }
+            J::Array(out)
+        }
+        other => other.clone(),
+    }
+}
+
 fn signature_of_text(text: &str) -> J {
     match parse_merged(text) {
         None => json!({"ok": false}),
         Some(d) => {
             let n = xml_dom::AsNode::as_node(&d);
             match guarded(move || sig_node(&n)) {
-                Ok(Ok(s)) => json!({"ok": true, "sig": s}),
+                Ok(Ok(s)) => json!({"ok": true, "ws": strip_ws(&s), "sig": s}),
                 Ok(Err(e)) => json!({"ok": false, "why": e}),
                 Err(p) => json!({"ok": false, "why": format!("panic: {}", p)}),
             }
